@@ -2171,7 +2171,7 @@ pub fn run(a: &Args) -> i32 {
     let mut rng = Rng::derive(a.seed, 20);
     let quick = ctx.quick();
     let miri = cfg!(miri);
-    let scale: usize = if miri { 1 } else if quick { 120 } else { 2400 };
+    let scale: usize = if miri { 1 } else if quick { 70 } else { 2400 };
     let mut h = H { ctx, scratch: Scratch::new("c20"), db: None, dbn: 0, next_id: 0, sigs: BTreeMap::new(), judged: BTreeMap::new(), np_done: BTreeMap::new(), np_cap: if quick { 6 } else { 60 } };
     if !h.fresh_db() {
         return h.ctx.finish();
